@@ -6,6 +6,10 @@
 // in the directory at the start; they must never be touched.
 #define HV_VIRTUAL_CLOCK
 #include "common.hpp"
+#include <dlfcn.h>
+#include <fcntl.h>
+#include <cstdarg>
+#include <sys/wait.h>
 #include <fstream>
 #include <map>
 #include <memory>
@@ -13,6 +17,25 @@
 using namespace ephemeralnet;
 using hv::In; using hv::Out; using hv::i64;
 namespace fs = std::filesystem;
+
+// ---- crash injection: the file-system calls a store or a wipe makes are counted in a forked child, which dies at the N-th ----
+static long g_crash_countdown = -1;      // armed only in the child
+static void crash_point() { if (g_crash_countdown > 0 && --g_crash_countdown == 0) ::_exit(77); }
+template <class F> static F real(const char* name) { return reinterpret_cast<F>(::dlsym(RTLD_NEXT, name)); }
+extern "C" {
+FILE* fopen(const char* p, const char* m) { crash_point(); return real<FILE* (*)(const char*, const char*)>("fopen")(p, m); }
+int open(const char* p, int flags, ...) { crash_point(); va_list ap; va_start(ap, flags); const int mode = va_arg(ap, int); va_end(ap); return real<int (*)(const char*, int, ...)>("open")(p, flags, mode); }
+ssize_t write(int fd, const void* b, size_t n) {
+    // a write may also stop half way: the first half reaches the disk, then the process dies
+    if (g_crash_countdown == 1 && n > 1 && fd > 2) { real<ssize_t (*)(int, const void*, size_t)>("write")(fd, b, n / 2); ::_exit(77); }
+    if (fd > 2) crash_point();
+    return real<ssize_t (*)(int, const void*, size_t)>("write")(fd, b, n);
+}
+int unlink(const char* p) { crash_point(); return real<int (*)(const char*)>("unlink")(p); }
+int remove(const char* p) { crash_point(); return real<int (*)(const char*)>("remove")(p); }
+int rename(const char* a, const char* b) { crash_point(); return real<int (*)(const char*, const char*)>("rename")(a, b); }
+int ftruncate(int fd, off_t n) { crash_point(); return real<int (*)(int, off_t)>("ftruncate")(fd, n); }
+}
 
 static ChunkId cid(i64 c) { ChunkId id{}; id[0] = static_cast<std::uint8_t>(c & 0xFF); id[1] = static_cast<std::uint8_t>((c >> 8) & 0xFF); id[31] = 0xC4; return id; }
 static std::string fname(i64 c) { return chunk_id_to_string(cid(c)) + ".chunk"; }
@@ -50,17 +73,51 @@ int main() {
         cfg.storage_wipe_passes = 2;
         auto store = std::make_unique<ChunkStore>(cfg);
         const i64 maxkey = 40;
+        std::vector<std::vector<i64>> history;      // the operations applied so far (for re-creating the state after a crash run)
+        auto apply = [&](const std::vector<i64>& op) {
+            if (op[0] == 0) { std::vector<std::uint8_t> d; for (std::size_t i = 3; i < op.size(); ++i) d.push_back(static_cast<std::uint8_t>(op[i])); store->put(cid(op[1]), d, std::chrono::seconds(op[2])); }
+            else if (op[0] == 2) store->sweep_expired();
+            else if (op[0] == 3) hv::g_now_ns += (op[1] > 0 ? op[1] : 0) * 1'000'000LL;
+        };
         while (!in.eof()) {
             const i64 code = in.next();
-            if (code == 0) { const i64 k = in.next(), ttl = in.next(); auto d = in.bytes(); store->put(cid(k), d, std::chrono::seconds(ttl)); }
+            if (code == 5) {
+                // crash enumeration: the next operation (a put or a sweep) is run in a child that dies at its N-th file-system
+                // call, N = 1, 2, ...; after every death a new instance starts on the directory and the directory is listed
+                std::vector<i64> target{in.next()};
+                if (target[0] == 0) { target.push_back(in.next()); target.push_back(in.next()); const auto d = in.bytes(); for (auto b : d) target.push_back(b); }
+                i64 worst = 0, points = 0;
+                for (long n = 1; n <= 300; ++n) {
+                    std::fflush(nullptr);
+                    const pid_t pid = ::fork();
+                    if (pid == 0) { g_crash_countdown = n; apply(target); ::_exit(0); }
+                    int status = 0; ::waitpid(pid, &status, 0);
+                    const bool crashed = WIFEXITED(status) && WEXITSTATUS(status) == 77;
+                    if (crashed) ++points;
+                    // restart on what the dead process left behind
+                    store.reset(); store = std::make_unique<ChunkStore>(cfg);
+                    Out tmp; list_dir(tmp, dir, maxkey);
+                    worst = std::max(worst, tmp.v[0]);
+                    // back to the state before the target operation
+                    hv::g_now_ns = 1'000'000'000'000LL;
+                    for (const auto& op : history) apply(op);
+                    if (!crashed) break;
+                }
+                out.put(worst); out.put(points >= 2 ? 1 : 0);
+                apply(target); history.push_back(target);
+                list_dir(out, dir, maxkey);
+                continue;
+            }
+            if (code == 0) { const i64 k = in.next(), ttl = in.next(); auto d = in.bytes(); std::vector<i64> op{0, k, ttl}; for (auto b : d) op.push_back(b); apply(op); history.push_back(op); }
             else if (code == 1) { const i64 k = in.next(); const auto r = store->get_record(cid(k)); if (r) { out.put(1); out.bytes(r->data); } else out.put(0); }
-            else if (code == 2) store->sweep_expired();
-            else if (code == 3) { const i64 ms = in.next(); hv::g_now_ns += (ms > 0 ? ms : 0) * 1'000'000LL; }
+            else if (code == 2) { apply({2}); history.push_back({2}); }
+            else if (code == 3) { const i64 ms = in.next(); apply({3, ms}); history.push_back({3, ms}); }
             else {
                 const i64 n = in.next();
                 store.reset();
                 for (i64 i = 0; i < n; ++i) { const i64 k = in.next(); const auto b = in.bytes(); std::ofstream f(dir / fname(k), std::ios::binary | std::ios::trunc); f.write(reinterpret_cast<const char*>(b.data()), static_cast<std::streamsize>(b.size())); }
                 store = std::make_unique<ChunkStore>(cfg);
+                history.clear();      // nothing of the earlier instance survives (with wipe-on-expiry; the crash mode is only used with it)
             }
             list_dir(out, dir, maxkey);
         }
